@@ -24,14 +24,16 @@ Definition cR (x : valueR) (k : nat) : R := nth k x 0.
 Definition mdiff (v : varR) (x c : R) : R :=
   if v_periodic v then (x - c) - IZR (Zfloor ((x - c) / v_period v + 1 / 2)) * v_period v else x - c.
 
-(* squared distance of one variable: scalar (nearest image), Euclidean for a 3-vector, and for a unit
-   vector the squared angle as implemented (arc cosine of the inner product clamped to [-1,1]) *)
+(* squared distance of one variable: scalar (nearest image), Euclidean for a 3-vector, for a unit vector the
+   squared angle as implemented (arc cosine of the inner product clamped to [-1,1]), for a quaternion the squared
+   angle omega or pi - omega, whichever is smaller (q and -q are the same rotation), as implemented *)
 Definition D (v : varR) (x c : valueR) : R :=
   match v_kind v with
   | KScalar => mdiff v (scR x) (scR c) * mdiff v (scR x) (scR c)
   | KVec3 => (cR c 0 - cR x 0) * (cR c 0 - cR x 0) + (cR c 1 - cR x 1) * (cR c 1 - cR x 1)
              + (cR c 2 - cR x 2) * (cR c 2 - cR x 2)
   | KUnit3 => vdist2 Rops v x c
+  | KQuat => vdist2 Rops v x c
   end.
 
 (* its gradient with respect to x, one entry per component (for the unit vector: as implemented) *)
@@ -40,9 +42,10 @@ Definition Dgrad (v : varR) (x c : valueR) : valueR :=
   | KScalar => [2 * mdiff v (scR x) (scR c)]
   | KVec3 => [2 * (cR x 0 - cR c 0); 2 * (cR x 1 - cR c 1); 2 * (cR x 2 - cR c 2)]
   | KUnit3 => vlgrad Rops v x c
+  | KQuat => vlgrad Rops v x c
   end.
 
-Definition dim (v : varR) : nat := match v_kind v with KScalar => 1 | _ => 3 end.
+Definition dim (v : varR) : nat := match v_kind v with KScalar => 1 | KQuat => 4 | _ => 3 end.
 
 (* exponent of a hill centred at c, seen from x:  sum_i D_i(x_i, c_i) / sigma_i^2 *)
 Fixpoint Qexp (vs : list varR) (x c : list valueR) : R :=
@@ -100,9 +103,20 @@ Section Spec.
     if in_grid (s_geom s) x then Fsum vs (s_tab s) (bin_centre (s_geom s) x) k j + Fsum vs (s_pend s) x k j
     else Fsum vs (s_all s) x k j.
 
-  (* height of a new hill: hillWeight, times exp(-V/(k dT)) for well-tempered runs *)
-  Definition spec_height (s : sstate) (x : list valueR) : R :=
-    if c_wt c then c_weight c * exp (- spec_energy s x / (c_bias_temp c * c_kb c)) else c_weight c.
+  (* ebMeta: the inverse of the target distribution at the bin of x (bins of the configured boundaries, wrapped
+     along periodic dimensions; beyond the boundaries the closest edge bin), ramped in linearly from 1 during the
+     first ebMetaEquilSteps steps *)
+  Definition eb_factor (i : inR) : R :=
+    if c_eb c then
+      let r := 1 / c_eb_target c (tbins Rops c (i_x i)) in
+      if (i_it i <? c_eb_equil c)%Z
+      then let lam := IZR (c_eb_equil c - i_it i) / IZR (c_eb_equil c) in lam + (1 - lam) * r
+      else r
+    else 1.
+
+  (* height of a new hill: hillWeight, times the ebMeta factor, times exp(-V/(k dT)) for well-tempered runs *)
+  Definition spec_height (s : sstate) (i : inR) : R :=
+    c_weight c * (eb_factor i * (if c_wt c then exp (- spec_energy s (i_x i) / (c_bias_temp c * c_kb c)) else 1)).
 
   (* expandBoundaries: the grids grow by whole bins so that the current bin keeps a buffer of
      floor(3 hillWidth)+1 bins from the (non-hard) edges *)
@@ -116,7 +130,7 @@ Section Spec.
     mkS (s_tab s) (s_pend s) (next_geom (s_geom s) x).
   Definition spec_dep (s : sstate) (i : inR) : sstate :=
     if eligible i
-    then mkS (s_tab s) (s_pend s ++ [mkHill (i_it i) (spec_height s (i_x i)) (i_x i)]) (s_geom s)
+    then mkS (s_tab s) (s_pend s ++ [mkHill (i_it i) (spec_height s i) (i_x i)]) (s_geom s)
     else s.
   Definition spec_tabulate (s : sstate) : sstate :=
     if c_use_grids c then mkS (s_tab s ++ s_pend s) [] (s_geom s) else s.
@@ -137,7 +151,10 @@ Section Spec.
 
   (* a step of the engine, the state being written (the hills not yet tabulated are tabulated), a restart *)
   Definition spec_event (s : sstate) (e : eventR) : sstate :=
-    match e with EStep i => spec_step s i | ESave => spec_tabulate s | ERestart r => spec_restart s r end.
+    match e with
+    | EStep i => spec_step s i | ESave => spec_tabulate s | ERestart r => spec_restart s r
+    | EReload => spec_tabulate s
+    end.
 
   Definition spec_run (hist : list eventR) : sstate := fold_left spec_event hist (mkS [] [] (c_geom0 c)).
 End Spec.
@@ -168,6 +185,7 @@ Proof.
   - unfold vdist2. rewrite E, !sc_R, vdiff_R. reflexivity.
   - unfold vdist2. rewrite E. reflexivity.
   - reflexivity.
+  - reflexivity.
 Qed.
 
 Lemma vlgrad_R v x c : vlgrad Rops v x c = Dgrad v x c.
@@ -175,6 +193,7 @@ Proof.
   unfold Dgrad. destruct (v_kind v) eqn:E.
   - unfold vlgrad. rewrite E, !sc_R, vdiff_R. reflexivity.
   - unfold vlgrad. rewrite E. reflexivity.
+  - reflexivity.
   - reflexivity.
 Qed.
 
@@ -185,6 +204,8 @@ Proof.
   - pose proof (Rle_0_sqr (cR c 0 - cR x 0)). pose proof (Rle_0_sqr (cR c 1 - cR x 1)).
     pose proof (Rle_0_sqr (cR c 2 - cR x 2)). unfold Rsqr in *. lra.
   - unfold vdist2. rewrite E. apply Rle_0_sqr.
+  - unfold vdist2. rewrite E. cbv zeta.
+    destruct (nltb Rops (n0 Rops) (dot4 Rops x c)); apply Rle_0_sqr.
 Qed.
 
 Lemma sqdev_R vs : forall x c a, sqdev Rops vs x c a = a + Qexp vs x c.
@@ -258,8 +279,9 @@ Qed.
 Lemma vlgrad_length (v : varR) x c : length (vlgrad Rops v x c) = dim v.
 Proof.
   unfold vlgrad, dim. destruct (v_kind v); try reflexivity.
-  destruct (nltb Rops (n0 Rops) (dot3 Rops x c) &&
-            nltb Rops (nsub Rops (n1 Rops) (nmul Rops (dot3 Rops x c) (dot3 Rops x c))) (tiny28 Rops)); reflexivity.
+  - destruct (nltb Rops (n0 Rops) (dot3 Rops x c) &&
+              nltb Rops (nsub Rops (n1 Rops) (nmul Rops (dot3 Rops x c) (dot3 Rops x c))) (tiny28 Rops)); reflexivity.
+  - cbv zeta. destruct (nltb Rops (nabs Rops (nsin Rops (nacos Rops (clamp1 Rops (dot4 Rops x c))))) (tiny14 Rops)); reflexivity.
 Qed.
 
 Lemma vzero_length (v : varR) : length (vzero Rops v) = dim v.
